@@ -293,6 +293,8 @@ pub struct RunResult {
 }
 
 struct World {
+    /// the signed invoices of the `invoice x` requests
+    invoices: Vec<lightning_signer::invoice::Invoice>,
     /// the harness-side store (what a restart would read back)
     store: Arc<TrackingPersister>,
     node_ctx: TestNodeContext,
@@ -601,7 +603,8 @@ fn build_world(sc: &Scenario) -> World {
     tx_ctx.add_wallet_input(&node_ctx, SpendType::P2wpkh, 1, 1_000_000);
     tx_ctx.add_wallet_output(&node_ctx, SpendType::P2wpkh, 2, 999_000);
     let tx = tx_ctx.to_tx();
-    World { store, node_ctx, chans, commits, pay_commits, onchain: (tx, tx_ctx), stub, blocks: std::sync::Mutex::new(Vec::new()), coinbase_ctr }
+    let invoices = (0..3u8).map(|x| make_current_test_invoice(x, 10_000 + x as u64)).collect();
+    World { invoices, store, node_ctx, chans, commits, pay_commits, onchain: (tx, tx_ctx), stub, blocks: std::sync::Mutex::new(Vec::new()), coinbase_ctr }
 }
 
 fn status_str<T>(r: &Result<T, lightning_signer::util::status::Status>) -> String {
@@ -776,7 +779,10 @@ fn do_req(w: &World, r: &Req) -> String {
             }
         }
         Req::Invoice(x) => {
-            let r = node.add_invoice(make_current_test_invoice(*x, 10_000 + *x as u64));
+            // the invoice object is built once per world: two `invoice x` requests of one run present
+            // the same signed invoice (an invoice built at request time would carry the wall-clock
+            // second and two requests straddling a second boundary would be different invoices)
+            let r = node.add_invoice(w.invoices[*x as usize % w.invoices.len()].clone());
             match r {
                 Ok(b) => format!("ok {}", b),
                 Err(e) => format!("err:{:?}:{}", e.code(), e.message()),
